@@ -477,6 +477,13 @@ impl<'a> Nh<'a> {
                         let _ = write!(sink, "{}", m);
                         let _ = write!(sink, "{:?}{:?}{:?}", m.iter(), m.keys(), m.values());
                     });
+                    sink.len = 0;
+                    win!(self, "fmt(flags)", {
+                        let _ = write!(sink, "{:>40}", m);
+                        let _ = write!(sink, "{:*^9}", m);
+                        let _ = write!(sink, "{:<3}{:+}{:08}", m, m, m);
+                        let _ = write!(sink, "{:12?}{:#x?}", m, m);
+                    });
                 }
                 _ => {}
             }
@@ -675,6 +682,11 @@ impl<'a> Nh<'a> {
                     win!(self, "Set::fmt", {
                         let _ = write!(sink, "{:?}{:#?}{}", s, s, s);
                         let _ = write!(sink, "{:?}{:?}{:?}{:?}", s.union(&t), s.intersection(&t), s.difference(&t), s.symmetric_difference(&t));
+                    });
+                    sink.len = 0;
+                    win!(self, "Set::fmt(flags)", {
+                        let _ = write!(sink, "{:>40}{:*^9}{:+}", s, s, s);
+                        let _ = write!(sink, "{:12?}{:#x?}", s, s);
                     });
                 }
                 _ => {}
